@@ -30,7 +30,7 @@ m = {
         "guard": "verif",
         "enable": "go/packages load of /repo with -tags=verif (comment-only files zz_contracts_verif.go carry the //@ contracts; they add no code)",
         "baseline_off_cmd": json.load(open("/root/.vp/BASELINE.json"))["cmd"],
-        "source_commits": claims.get("hook_commits", []),
+        "source_commits": __import__("subprocess").check_output(["git","-C","/repo","log","--format=%h","--grep=^verif:"]).decode().split(),
         "add_only": True,
     },
     "engines": [{"name": "govc", "path": "/verif/govc", "serves_properties": sorted(claims["claimed"].keys()),
